@@ -64,6 +64,7 @@ ASSUMPTIONS = [
     "thread timings are sampled by real threads with randomized sleeps and a small switch interval, not enumerated; the flush "
     "timer is mostly emulated by calling BufferedWriter.commit() from a second thread (what threading.Timer does), plus a few "
     "real timers with a sub-second period",
+    "an empty posting value (fields whose format stores nothing per posting) is the same as no value (None vs b'')",
     "a sub-writer process that dies is observed through its traceback on stderr and counted; only a difference in the resulting "
     "index is a violation",
 ]
@@ -434,11 +435,26 @@ def run_mp_subprocess(tmpdir, h, cfg, seedstr):
 # observations and comparison
 # ----------------------------------------------------------------------
 
+def full_dump(reader):
+    """vf.dump plus: a column no live segment physically has reads as the column's default for every document (that is
+    what column_reader() returns and what sorting uses), so 'no column file' and 'all defaults' compare equal."""
+    from vf import dump
+    d = dump.dump(reader, keyfield="key")
+    docnums = list(reader.all_doc_ids())
+    for fname, field in reader.schema.items():
+        if field.column_type is not None and fname not in d["columns"]:
+            cr = reader.column_reader(fname)
+            d["columns"][fname] = dict((k, cr[dn]) for dn, k in zip(docnums, d["keys_in_doc_order"]))
+    return norm_dump(d)
+
+
 def norm_dump(d):
     d = dict(d)
     d.pop("keys_in_doc_order", None)
     if "terms" in d:
-        d["terms"] = {t: pl for t, pl in d["terms"].items() if pl}
+        # an empty posting value (formats without per-posting data) reads back as None from disk and as b"" from the
+        # in-memory codec: no information either way
+        d["terms"] = {t: [(k, wgt, v or None) for k, wgt, v in pl] for t, pl in d["terms"].items() if pl}
     return d
 
 
@@ -457,7 +473,7 @@ def observe(ix, probes, with_stats):
     obs = {}
     r = ix.reader()
     try:
-        obs["dump"] = norm_dump(dump.dump(r, keyfield="key"))
+        obs["dump"] = full_dump(r)
         obs["nseg"] = len(r.leaf_readers())
         obs["has_deletions"] = r.has_deletions()
         if with_stats:
@@ -754,15 +770,25 @@ def case_product(ctx, idx, rng, mp):
 # case kind: bw (BufferedWriter against the dict model)
 # ----------------------------------------------------------------------
 
-def build_reference_from_model(opts, live):
-    """Single-commit RAM index of the model's live documents (insertion order of the dict)."""
-    from whoosh.filedb.filestore import RamStorage
-    ix = RamStorage().create_index(make_schema(opts))
-    w = ix.writer()
-    for d in live.values():
-        w.add_document(**d)
-    w.commit()
-    return ix
+def model_dump(opts, live):
+    """Dump of a single-commit index of the model's live documents (insertion order of the dict). Built in a private
+    directory: RamStorage writers of one process all share <tempdir>/MAIN.tmp, and this build must not disturb the
+    BufferedWriter under observation."""
+    from vf import dump
+    from whoosh.filedb.filestore import FileStorage
+    d = tempfile.mkdtemp(prefix="vf-c18-ref-")
+    try:
+        ix = FileStorage(d).create_index(make_schema(opts))
+        w = ix.writer()
+        for doc in live.values():
+            w.add_document(**doc)
+        w.commit()
+        with ix.reader() as r:
+            out = full_dump(r)
+        ix.close()
+        return out
+    finally:
+        shutil.rmtree(d, ignore_errors=True)
 
 
 def bw_view_check(ctx, w, bw, live, rng, step, full):
@@ -790,22 +816,17 @@ def bw_view_check(ctx, w, bw, live, rng, step, full):
                 return False
     if full:
         ctx.count("c18.bw.dump_checks")
-        rix = build_reference_from_model(w["opts"], live)
+        rd = model_dump(w["opts"], live)
+        r = bw.reader()
         try:
-            with rix.reader() as rr:
-                rd = norm_dump(dump.dump(rr, keyfield="key"))
-            r = bw.reader()
-            try:
-                gd = norm_dump(dump.dump(r, keyfield="key"))
-            finally:
-                r.close()
-            if rd != gd:
-                ds = dump.diff(rd, gd)
-                part = ds[0].split("/")[1] if ds and "/" in ds[0] else "?"
-                ctx.fail("c18.bw.view", "dump:%s" % part, dict(w, step=step), "model build vs BufferedWriter.reader():\n" + "\n".join(ds))
-                return False
+            gd = full_dump(r)
         finally:
-            rix.close()
+            r.close()
+        if rd != gd:
+            ds = dump.diff(rd, gd)
+            part = ds[0].split("/")[1] if ds and "/" in ds[0] else "?"
+            ctx.fail("c18.bw.view", "dump:%s" % part, dict(w, step=step), "model build vs BufferedWriter.reader():\n" + "\n".join(ds))
+            return False
     return True
 
 
@@ -816,14 +837,9 @@ def bw_after_close(ctx, w, st, cfg, live, opts, what):
     ctx.count("c18.bw.close_checks")
     ix = reopen(st, cfg)
     try:
-        rix = build_reference_from_model(opts, live)
-        try:
-            with rix.reader() as rr:
-                rd = norm_dump(dump.dump(rr, keyfield="key"))
-            with ix.reader() as r:
-                gd = norm_dump(dump.dump(r, keyfield="key"))
-        finally:
-            rix.close()
+        rd = model_dump(opts, live)
+        with ix.reader() as r:
+            gd = full_dump(r)
         if rd != gd:
             ds = dump.diff(rd, gd)
             part = ds[0].split("/")[1] if ds and "/" in ds[0] else "?"
